@@ -328,7 +328,9 @@ def run_ws(W: dict) -> dict:
                         else:
                             ws.feed({"event": "trade", "channel": c, "data": {"n": n}})
                     else:
-                        hist["resub"].append({"t": peer.ms(), "conn": ws.conn, "channel": c})
+                        # raw: the stream name that just expired (a Binance listen key): the re-subscription needs another one
+                        hist["resub"].append({"t": peer.ms(), "conn": ws.conn, "channel": c,
+                                              "raw": s if W["flavour"] == "binance" and c == "spot_user_data" else ""})
                         if W["flavour"] == "generic":
                             ws.feed({"type": "expired", "channel": c})
                         elif W["flavour"] == "binance":
